@@ -31,8 +31,8 @@ func (f *symSrc) Read(p []byte) (int, error) {
 }
 
 // VerifC07_PemReader: PemReader.Read over EVERY text of length <= N (broken armour, long lines,
-// missing newline, empty file) with the armour regular expression answering arbitrarily (an
-// over-approximation of regexp): no panic, never more bytes returned than the caller's buffer
+// missing newline, empty file), the armour regular expression encoded exactly (engine/regex.go):
+// no panic, never more bytes returned than the caller's buffer
 // holds, every recursion consumes a line.
 func VerifC07_PemReader() {
 	N := verifrt.Param("N", 8)
